@@ -828,6 +828,16 @@ def mutable_method(sx, ref, attr, args, kwargs, st, node):
                 for p in payload:
                     mutable_method(sx, ref, "append", [p], {}, st, node)
                 return ok(st, NONE)
+            if not sx.spec_mode:
+                # extended by an iterable known only through a model: some list that starts with the old contents
+                r = t.fresh(fresh_name("extended"))
+                i = z3.Int(fresh_name("xi"))
+                st.assume(t.n(r.term) >= n)
+                st.assume(z3.ForAll([i], z3.Implies(z3.And(i >= 0, i < n), t.at(r.term, i) == z3.Select(arr, i))))
+                sx.reg.havoc_ghost_for_unknown_call(sx, st)
+                sx.uncontracted.append("list.extend with an iterator model (line %s)" % getattr(node, "lineno", "?"))
+                st.setcell(ref.cell, r)
+                return [R(st, NONE), R(st.fork(), None, Exc("Exception", exact=False))]
             raise Unsupported("extend with %s" % kind, node)
         if attr == "sort":
             m = sx.reg.sort_model(sx, ref, kwargs, st, node)
@@ -1103,7 +1113,23 @@ def json_method(sx, obj, attr, args, kwargs, st, node):
     if not sx.feasible(s_ok):
         return outs
     m = sx.reg.json_method(sx, obj, attr, args, kwargs, s_ok, node)
+    if m is None and attr == "get" and args and not sx.spec_mode:
+        # dict.get(key[, default]) on a JSON object: the member if present, else the default
+        key = sx.coerce_str(args[0], s_ok)
+        has = j["has"](obj.term, key.term)
+        s_has = s_ok.fork().assume(has)
+        if sx.feasible(s_has):
+            outs.append(R(s_has, Val(V.Json, j["get"](obj.term, key.term))))
+        s_not = s_ok.assume(z3.Not(has))
+        if sx.feasible(s_not):
+            outs.append(R(s_not, args[1] if len(args) > 1 else NONE))
+        return outs
     if m is None:
+        if not sx.spec_mode:
+            from .sx import Unknown as _U3
+            sx.uncontracted.append("json value .%s (line %s)" % (attr, getattr(node, "lineno", "?")))
+            outs.append(R(s_ok, Conc(_U3("json.%s()" % attr))))
+            return outs
         raise Unsupported("json method %s" % attr, node)
     outs.extend(m)
     return outs
